@@ -141,3 +141,71 @@ func TWCC(t *rapid.T) *m.TWCC {
 	s := Statuses(t, 300)
 	return BuildTWCC(t, s, Chunking(t, s.Statuses, false))
 }
+
+// LongTWCC draws a long status sequence (up to the largest status count, 65535) made of a few
+// runs - mostly long runs of lost packets, short runs of received ones so that the packet stays
+// small - and two run-length chunkings of it that cut the runs at different places. In either
+// chunking the final run may be longer than what remains (it is clipped to the status count):
+// with counts near 65535 the start of that run plus its length reaches 2^16, the place where
+// 16-bit status arithmetic wraps.
+func LongTWCC(t *rapid.T) (TWCCSeq, []m.TWCCChunk, []m.TWCCChunk) {
+	n := rapid.SampledFrom([]int{65535, 65535, 65535, 65534, 65528, 61000, 57345, 57344, 40000, 32768, 16384, 8192, 8191}).Draw(t, "long.n")
+	type run struct {
+		sym uint16
+		n   int
+	}
+	var runs []run
+	left := n
+	tail := rapid.IntRange(1, 200).Draw(t, "long.tail")
+	tailSym := uint16(rapid.IntRange(0, 2).Draw(t, "long.tailsym"))
+	left -= tail
+	for left > 0 {
+		sym := uint16(0)
+		l := rapid.IntRange(1, 20000).Draw(t, "long.lost")
+		if rapid.IntRange(0, 3).Draw(t, "long.recv?") == 0 {
+			sym = uint16(rapid.IntRange(1, 2).Draw(t, "long.sym"))
+			l = rapid.IntRange(1, 120).Draw(t, "long.recv")
+		}
+		if l > left {
+			l = left
+		}
+		runs = append(runs, run{sym, l})
+		left -= l
+	}
+	runs = append(runs, run{tailSym, tail})
+	var s TWCCSeq
+	for _, r := range runs {
+		for i := 0; i < r.n; i++ {
+			s.Statuses = append(s.Statuses, r.sym)
+			switch r.sym {
+			case m.SymSmall:
+				s.Ticks = append(s.Ticks, int64(Bits(t, 8, "tick.small")))
+			case m.SymLarge:
+				s.Ticks = append(s.Ticks, int64(int16(Bits(t, 16, "tick.large"))))
+			}
+		}
+	}
+	chunking := func(label string) []m.TWCCChunk {
+		var out []m.TWCCChunk
+		for ri, r := range runs {
+			rem := r.n
+			for rem > 0 {
+				piece := rem
+				if piece > 8191 {
+					piece = 8191
+				}
+				if rapid.IntRange(0, 2).Draw(t, label+".split") == 0 {
+					piece = rapid.IntRange(1, piece).Draw(t, label+".piece")
+				}
+				c := m.TWCCChunk{Symbol: r.sym, Run: uint16(piece)}
+				rem -= piece
+				if ri == len(runs)-1 && rem == 0 && rapid.IntRange(0, 1).Draw(t, label+".over") == 0 {
+					c.Run = uint16(rapid.IntRange(piece, 8191).Draw(t, label+".overlen"))
+				}
+				out = append(out, c)
+			}
+		}
+		return out
+	}
+	return s, chunking("c1"), chunking("c2")
+}
